@@ -533,7 +533,7 @@ type access struct {
 	Write, Excl   bool
 }
 
-var sharedStructs = map[string]bool{"Vue": true, "ExprEvaluator": true, "Loader": true, "Renderer": true, "template": true}
+var sharedStructs = map[string]bool{"Vue": true, "ExprEvaluator": true, "Loader": true, "Renderer": true, "template": true, "templateCacheEntry": true}
 
 func isSyncType(e ast.Expr) bool {
 	s := types.ExprString(e)
